@@ -88,7 +88,9 @@ def expected_means(waves, counts_row, pos, shanks):
     return out
 
 
-def close(a, b, rtol=1e-9, atol=1e-12):
+def close(a, b, rtol=1e-6, atol=1e-6):
+    # numeric clauses are compared at single-precision level: the stored templates are float32 and the
+    # statement does not fix the precision in which the mean is accumulated
     a = np.asarray(a, dtype=np.float64)
     b = np.asarray(b, dtype=np.float64)
     return a.shape == b.shape and bool(np.allclose(a, b, rtol=rtol, atol=atol, equal_nan=True))
@@ -107,7 +109,7 @@ def build(d, inp):
                      spike_templates=st, spike_clusters=(sc if sc is None or isinstance(sc, str) else list(sc)),
                      shanks=bool(inp.get('shanks', False)), whitening=bool(inp.get('whitening', True)),
                      whitening_inv=bool(inp.get('wmi_file', False)), positions=pos.tolist(),
-                     similar=bool(inp.get('similar', True)), colvec=bool(inp.get('colvec', False)),
+                     similar=bool(inp.get('similar', False)), colvec=bool(inp.get('colvec', False)),
                      templates_dtype=inp.get('templates_dtype', 'float32'))
     if inp.get('whitening', True) and inp.get('random_wm', False):
         # random well conditioned whitening matrix instead of datagen's fixed one
@@ -189,7 +191,7 @@ def check_curated(m, T, st, sc, nt):
     yield 'id-without-spikes-carries-no-waveform', ok_empty, det_empty
 
     # get_cluster_mean_waveforms on the loaded model, whitened and unwhitened templates
-    for unwhiten, waves, tol in ((False, raw, 1e-9), (True, unw, 2e-6)):
+    for unwhiten, waves, tol in ((False, raw, 1e-6), (True, unw, 4e-6)):
         ok_set, ok_val, det = True, True, ''
         for c in range(nmax + 1):
             if not prov[c]:
@@ -235,7 +237,7 @@ def case_identical(inp):
                     chd = template_channels(w, pos, shanks)
                     r = m.get_cluster_mean_waveforms(t, unwhiten=unwhiten)
                     ch = [int(x) for x in r.channel_ids]
-                    tol = 2e-6 if unwhiten else 1e-9
+                    tol = 4e-6 if unwhiten else 1e-6
                     if sorted(ch) != chd or not close(r.mean_waveforms, w[:, ch], rtol=tol, atol=tol * max(1.0, float(np.abs(w).max()))):
                         ok, det = False, (unwhiten, t, ch, chd)
             yield 'single-template-cluster-mean-waveform-is-that-template', ok, det
@@ -331,9 +333,9 @@ def enumerate_cases(ctx):
     nt = 3
     # ---- exhaustive: all count matrices (cluster id x template) -----------------------------
     if quick:
-        fam = [(3, (2, 3, 4)), (4, (2, 3))]
+        fam = [(4, (2, 3)), (3, (4,))]
     else:
-        fam = [(4, (2, 3, 4, 5, 6))]
+        fam = [(4, (2, 3, 4, 5)), (3, (6,))]
     ctx.scope('curated (merged path): ALL spike-count matrices N[cluster id][template] over %s with the stated '
               'numbers of spikes (every pair (spike_templates, spike_clusters) up to spike order; spike order seeded), '
               '3 random dense templates of 5 samples, configurations (channels/shanks/whitening/geometry) cycled: %s'
@@ -364,7 +366,7 @@ def enumerate_cases(ctx):
             if not ids:
                 continue
             st = [ids[i % len(ids)] for i in range(max(2, len(ids) + 2))]
-            for k, cfg in enumerate(CONFIGS if not quick else CONFIGS[:3]):
+            for k, cfg in enumerate(CONFIGS if not quick else CONFIGS[:2]):
                 for scv in (None, 'same'):
                     ctx.run('identical', dict(cfg, nt=nt2, st=st, sc=scv, seed=k))
     # ---- every configuration on a fixed set of instructive histories ---------------------------
@@ -383,7 +385,7 @@ def enumerate_cases(ctx):
             for seed in ((1,) if quick else (1, 2, 3)):
                 ctx.run('curated', dict(cfg, nt=3 if max(st) < 3 else max(st) + 1, st=st, sc=sc, seed=seed))
     # ---- random curation histories ---------------------------------------------------------------
-    n_rand = 60 if quick else 2500
+    n_rand = 40 if quick else 2500
     ctx.scope('curated: %d seeded random curation histories (start clusters == templates; 1..6 merges / splits / '
               'reassignments; 2..6 templates, 4..40 spikes, 4..8 waveform samples), all configurations' % n_rand)
     for i in range(n_rand):
